@@ -1021,3 +1021,24 @@ VARIANTS += [
     V('C03-M33', 'M', ('C03', 'C05'), SA, 'AsyncBuffer', r'(self\._externally_stopped = to_stop\n)(\n    def _start\(self\):\n        self\._stopped = threading\.Event\(\)\n)        self\._tasks = SingleLane\(self\.maxsize\)\n', r'\1        self._tasks = SingleLane(self.maxsize)\n\2', ('C03-7', 'C05-9'), note='seeded C03-r4m2 shape on the async buffer: queue created by the constructor'),
     V('C03-E30', 'E', ALL, ST, 'Buffer.__iter__', r'if z is finished:', 'if z is FINISHED:', note='marker named directly'),
 ]
+
+RX = 'multiprocessing/remote_exception.py'
+SP = 'multiprocessing/server_process.py'
+VARIANTS += [
+    V('C15-E30', 'E', ALL, RX, 'RemoteException.__init__', r"for i in range\(len\(z\)\):\n(\s+)if isinstance\(z\[i\], BaseException\):", r"for i, v in enumerate(z):\n\1if isinstance(v, BaseException):", note='enumerate form of the re-wrap loop'),
+    V('C15-M30', 'M', ('C15', 'C04', 'C12', 'C14'), RX, 'RemoteException.__init__', r"for i in range\(len\(z\)\):", r"for i in range(exc.args[1]['n']):", ('C15-5', 'C04-7', 'C12-9', 'C14-8'), note='seeded C15-r4m1 shape'),
+    V('C15-M31', 'M', ('C15',), RX, 'EnsembleError.__reduce__', r"return type\(self\), ", r"return EnsembleError, ", ('C15-5',), note='seeded C15-r4m2 shape'),
+    V('C14-M30', 'M', ('C14', 'C13'), SP, 'BaseProxy._decref', r"\n\s+del tls\.connection", '', ('C14-10', 'C13-7'), note='seeded C14-r4m1 / C13-r4m1 shape'),
+    V('C14-E30', 'E', ALL, SP, 'BaseProxy._decref', r"(\n\s+)tls\.connection\.close\(\)\n\s+del tls\.connection", r"\1conn = tls.connection\1del tls.connection\1conn.close()", note='removed from the cache first, then closed'),
+    V('C14-M31', 'M', ('C14',), SP, 'Server._callmethod', r"if typeid:", r"if typeid and res is not None:", ('C14-11',), note='seeded C14-r4m2 shape (None variant)'),
+    V('C13-M30', 'M', ('C13',), SP, 'BaseProxy.__reduce__', r"(\n(\s+))conn = self\._Client\(self\._token\.address, authkey=self\._authkey\)\n\s+dispatch\(conn, None, 'incref', \(self\._id,\)\)", r"\1try:\1    conn = self._Client(self._token.address, authkey=self._authkey)\1    dispatch(conn, None, 'incref', (self._id,))\1except OSError:\1    pass", ('C13-2',), note='seeded C13-r4m2 shape'),
+    V('C06-M30', 'M', ('C06', 'C07'), SV, 'Server._enqueue', r"(\n(\s+))pipeline\[uid\] = fut\n", r"\1if perf_counter() >= fut.data['deadline']:\1    raise ServerBacklogFull(len(pipeline), perf_counter() - t0)\1pipeline[uid] = fut\n", ('C06-1', 'C06-13', 'C07-7'), note='seeded C07-r4m2 shape placed after the loop'),
+    V('C11-M30', 'M', ('C11',), SL, 'SwitchServlet.start', r"(\n        self\._qout = q_out\n)(.*?)(\n        self\._thread_enqueue = Thread\(.*?self\._thread_enqueue\.start\(\)\n)", r"\1\3\2\n", ('C11-1',), note='seeded C11-r4m2 shape'),
+    V('C16-M30', 'M', ('C16', 'C06'), SV, 'AsyncServer._enqueue', r"(async with self\._pipeline_notfull:\n(\s+))(while len\(pipeline\) >= self\._capacity:.*?)\n\s+t = timeout \* 0\.99 - \(perf_counter\(\) - t0\)\n", r"\1t = timeout * 0.99 - (perf_counter() - t0)\n\2\3\n", ('C16-8', 'C06-8'), note='seeded C16-r4m2 shape'),
+]
+
+TE = 'streamer/_tee.py'
+VARIANTS += [
+    V('C10-M30', 'M', ('C10',), TE, 'tee', r"Fork\(instream, n, buffer, head, instream_lock, i\)", "Fork(instream, 2, buffer, head, instream_lock, i)", ('C10-8',), note='seeded C10-r4m2 shape: constant number of forks'),
+    V('C10-E30', 'E', ALL, TE, 'tee', r"Fork\(instream, n, buffer, head, instream_lock, i\)", "Fork(instream, n_forks=n, buffer=buffer, head=head, instream_lock=instream_lock, fork_idx=i)", note='keyword form of the construction'),
+]
